@@ -4,7 +4,7 @@ CONSTANTS
     Workers <- MCWorkers
     WorkerMaps <- MCWorkerMaps
     CfgSpace <- MCCfgLive
-    MaxClock = 5
+    MaxClock = 4
     MaxApi = 3
     MaxLast = 1
     TrackRan = FALSE
